@@ -18,14 +18,14 @@ use std::process::{Command, Stdio};
 pub fn meta() -> Meta {
     Meta {
         id: "C17",
-        rule: "key scripts for the real Tui (headless driver): all scripts up to length 3 over a 24-key alphabet (13 824, exhaustive), seeded random scripts up to 200 keys (ASCII, multi-byte and wide characters, Enter, Tab, BackTab, arrows, Home/End, Backspace/Delete, control chords, command lines from the documented grammar, must-reject lines, hostile lines, `load` of fixture files; a tenth of them submit 1-5 lines and then walk the whole history up and down past both ends) at random terminal sizes with resizes, and a sweep of every terminal size 1x1..250x100 with a fixed script set; for terminal widths from 76 (every fourth in the quick tier) lines of exactly the input field's width, one less, one and three more are typed and the cursor is walked over all of them; two lines of more than 1024 characters are edited at both ends; `next N` also with N beyond 65 535. After every key: no panic in event handling or drawing, cursor <= text length, text/cursor/history equal to the editor model for plain editing keys, machine dump equal to the shadow machine, notification exactly for rejected lines. distinct_nontrivial counts distinct (key class, command class, size class, notification shown, auto-run, step mode) step classes",
+        rule: "key scripts for the real Tui (headless driver): all scripts up to length 3 over a 24-key alphabet (13 824, exhaustive), seeded random scripts up to 200 keys (ASCII, multi-byte and wide characters, Enter, Tab, BackTab, arrows, Home/End, Backspace/Delete, control chords, command lines from the documented grammar, must-reject lines, hostile lines, `load` of fixture files; a tenth of them submit 1-5 lines and then walk the whole history up and down past both ends) at random terminal sizes with resizes, and a sweep of every terminal size 1x1..250x100 with a fixed script set; for terminal widths from 76 (every fourth in the quick tier) lines of exactly the input field's width, one less, one and three more are typed and the cursor is walked over all of them; two lines of more than 1024 characters are edited at both ends; `next N` also with N beyond 65 535; two marathon sessions submit more than 256 and more than 512 lines (each with a comparable effect) and then walk the whole history. After every key: no panic in event handling or drawing, cursor <= text length, text/cursor/history equal to the editor model for plain editing keys, machine dump equal to the shadow machine, notification exactly for rejected lines. distinct_nontrivial counts distinct (key class, command class, size class, notification shown, auto-run, step mode) step classes",
         exhaustive: false,
         assumptions: vec![
             "the terminal backend (crossterm raw mode, real tty) is bypassed; the auto-run timing loop is replaced by 10 cycles per frame",
             "lines consisting of a documented command followed by other text, non-canonical numbers, blanks around a command and `exit` are left open; Tab/BackTab/Up/Down results are only checked for cursor <= length and then adopted",
             "`next N` is generated with N <= 2000; a fuel watchdog firing in the driver is inconclusive, not a violation",
         ],
-        floors: vec![("steps_checked", 150_000), ("scripts", 15_000), ("sizes_rendered", 25_000), ("commands_accepted_and_compared", 3_000), ("commands_must_reject", 2_000), ("loads_ok", 100), ("multibyte_keys", 5_000), ("tab_keys", 3_000), ("small_terminal_steps", 5_000), ("history_walk_scripts", 500), ("cursor_walks_over_long_lines", 30), ("lines_beyond_1024_characters", 2)],
+        floors: vec![("steps_checked", 150_000), ("scripts", 15_000), ("sizes_rendered", 25_000), ("commands_accepted_and_compared", 3_000), ("commands_must_reject", 2_000), ("loads_ok", 100), ("multibyte_keys", 5_000), ("tab_keys", 3_000), ("small_terminal_steps", 5_000), ("history_walk_scripts", 500), ("cursor_walks_over_long_lines", 30), ("lines_beyond_1024_characters", 2), ("sessions_with_more_than_256_submitted_lines", 2)],
     }
 }
 
@@ -874,6 +874,36 @@ pub fn run(ctx: &Ctx) -> Report {
             keys.extend([Key::Backspace, Key::Backspace, Key::Left, Key::Left, Key::Delete, Key::Char('x'), Key::Home, Key::Delete, Key::Char('y'), Key::End, Key::Backspace, Key::Enter]);
             scripts.push(Script { id: format!("long{}", i), width: 120, height: 40, keys });
             rep.inc("lines_beyond_1024_characters");
+        }
+        if i == 24 + 250 + 3 || i == 24 + 250 + 11 {
+            // a marathon session: more than 256 (and, once, more than 512) submitted lines, every one
+            // with an effect the model can compare, then a walk through the whole history and back
+            let lines = if i == 24 + 250 + 3 { 262 + rng.usize(20) } else { 516 + rng.usize(20) };
+            let mut keys = vec![];
+            for j in 0..lines {
+                let line = match j % 7 {
+                    0 => format!("FC = {}", (j * 7 + 1) % 256),
+                    1 => format!("FD = 0x{:X}", (j * 5 + 3) % 256),
+                    2 => format!("set J{}", 1 + (j / 7) % 2),
+                    3 => format!("FE = {}", (j * 3 + 2) % 256),
+                    4 => format!("unset J{}", 1 + (j / 7) % 2),
+                    5 => format!("FF = 0b{:b}", (j * 11 + 5) % 256),
+                    _ => format!("set IRG = {}", (j * 13 + 7) % 256),
+                };
+                type_line(&mut keys, &line);
+            }
+            for _ in 0..(lines + 3) {
+                keys.push(Key::Up);
+            }
+            keys.push(Key::Enter);
+            for _ in 0..(lines + 5) {
+                keys.push(Key::Down);
+            }
+            type_line(&mut keys, "FC = 77");
+            keys.push(Key::Up);
+            keys.push(Key::Enter);
+            scripts.push(Script { id: format!("marathon{}", i), width: 110, height: 40, keys });
+            rep.inc("sessions_with_more_than_256_submitted_lines");
         }
         if i == 24 + 250 {
             rep.sample(obj![("kind", "random script"), ("width", scripts[0].width), ("height", scripts[0].height), ("keys", J::Arr(scripts[0].keys.iter().take(40).map(|k| k.to_json()).collect()))]);
